@@ -90,13 +90,14 @@ Unwind(locals) ==
   /\ UNCHANGED <<heap, index, nputs, dropped>>
 
 (* ------------------------------- put ---------------------------------- *)
-StartPut(k) ==
+\* put(k, v) where the caller's key object is token tk and the value object is token tv
+StartPutT(k, tk, tv) ==
   /\ pc.op = "idle" /\ ~dropped /\ nputs < MaxPuts
-  /\ LET tk == 2 * nputs + 1  tv == 2 * nputs + 2 IN
-     /\ tok' = [tok EXCEPT ![tk] = [k |-> k, st |-> "live"], ![tv] = [k |-> 0, st |-> "live"]]
-     /\ pc' = [op |-> "put", step |-> "lookup", k |-> k, tk |-> tk, tv |-> tv]
+  /\ tok' = [tok EXCEPT ![tk] = [k |-> k, st |-> "live"], ![tv] = [k |-> 0, st |-> "live"]]
+  /\ pc' = [op |-> "put", step |-> "lookup", k |-> k, tk |-> tk, tv |-> tv]
   /\ nputs' = nputs + 1
   /\ UNCHANGED <<heap, index, bad, panics, dropped>>
+StartPut(k) == StartPutT(k, 2 * nputs + 1, 2 * nputs + 2)
 
 \* capturing_put: self.map.get_mut(&KeyRef{k}) - user Hash of the new key, Eq against bucket entries
 PutLookup ==
@@ -135,8 +136,8 @@ PutFull ==
            /\ LET m == {e \in Matches(heap, ok) : TRUE} IN
               IF m = {} THEN
                 \* `.unwrap()` on None: a library panic; k and v are dropped by unwinding
-                /\ tok' = DropToks(tok, {pc.tk, pc.tv}) /\ pc' = Idle
-                /\ index' = index /\ UNCHANGED <<heap, nputs, panics, dropped>>
+                /\ tok' = DropToks(tok, {pc.tk, pc.tv}) /\ pc' = Idle /\ panics' = panics + 1
+                /\ index' = index /\ UNCHANGED <<heap, nputs, dropped>>
               ELSE
                 /\ index' = index \ {CHOOSE e \in m : TRUE}
                 /\ pc' = [pc EXCEPT !.step = "replace"] @@ [node |-> (CHOOSE e \in m : TRUE).n]
@@ -249,10 +250,12 @@ DropCache ==
   /\ index' = {} /\ dropped' = TRUE
   /\ UNCHANGED <<nputs, pc, panics>>
 
+\* the micro-steps that continue an operation in progress
+Micro == PutLookup \/ PutHit \/ PutHandback \/ PutFull \/ PutReplace \/ PutAlloc \/ PutAttach \/ PutInsert \/ PutCb
+         \/ RemoveCb \/ RemoveLruCb
 Next ==
   \/ \E k \in Keys : StartPut(k) \/ Get(k) \/ StartRemove(k)
-  \/ PutLookup \/ PutHit \/ PutHandback \/ PutFull \/ PutReplace \/ PutAlloc \/ PutAttach \/ PutInsert \/ PutCb
-  \/ RemoveCb \/ StartRemoveLru \/ RemoveLruCb \/ DropCache
+  \/ Micro \/ StartRemoveLru \/ DropCache
 Spec == Init /\ [][Next]_vars
 
 (* ------------------------------ properties ---------------------------- *)
